@@ -86,9 +86,10 @@ theorem extendRun_eq_put_partial (s : RleEnc) (v : Nat) (h : s.isAccumulatingRle
     s.put v = s.extendRun 1 := by
   simp only [RleEnc.isAccumulatingRle, Bool.and_eq_true, decide_eq_true_eq, BIT_PACK_GROUP_SIZE] at h
   obtain ⟨h8, hc⟩ := h
+  have h8' : 8 ≤ s.rep := of_decide_eq_true h8
   unfold RleEnc.put RleEnc.extendRun
   simp only [hc, if_true, BIT_PACK_GROUP_SIZE]
-  rw [if_pos (by omega)]
+  rw [if_pos (show s.rep + 1 > 8 by omega)]
 
 /-- **Batch-split independence of shredding**: the definition/repetition level and value
 streams of a column are the concatenation of the streams of any partition of its rows into
